@@ -122,6 +122,7 @@ def run(facts, rep, ctx):
         end_valid = cat == "ann_write" and (insert_into_labels(b) or short in ("write_label", "write_labels"))
         bad = []
         rows = 0
+        undecided = set()
         for S in sizes:
             for a in addrs:
                 amounts = [None]
@@ -164,11 +165,15 @@ def run(facts, rep, ctx):
                             bad.append(("rejects-valid", S, a, m, ""))
                     else:
                         # every consistent path must be an error path that never touched the data
-                        if oks:
+                        if any(o["definite"] for o in oks):
                             bad.append(("accepts-invalid", S, a, m, ""))
+                        elif oks:
+                            undecided.add("%s: a success path could not be excluded at size=%s address=%s (a condition on it is not evaluable)" % (short, S, hexs(a)))
                         for o in errs:
                             if any(data_access_events(p) for p in o["paths"]):
                                 bad.append(("access-before-error", S, a, m, ""))
+        for u_ in sorted(undecided)[:1]:
+            rep.inconc(R2, u_)
         if bad:
             kinds = sorted(set(x[0] for x in bad))
             for kd in kinds:
@@ -237,6 +242,7 @@ def run(facts, rep, ctx):
         # R04.6 effect locality
         if cat in ("typed_write", "bytes_write", "ann_write"):
             viol = None
+            unk = None
             for p in paths:
                 err = is_err_term(p.ret)
                 muts = mutation_events(p)
@@ -244,13 +250,19 @@ def run(facts, rep, ctx):
                     viol = "mutates %s on an error path" % muts[0][1]
                 for kind, fld, via in muts:
                     if cat in ("typed_write", "bytes_write"):
-                        if fld != "data" or kind not in ("store", "copy_from_slice") or "index_mut" not in via:
-                            viol = "typed write performs %s on field %s%s" % (kind, fld, "" if "index_mut" in via else " (not through an index range)")
+                        if fld != "data":
+                            viol = "typed write performs %s on field %s" % (kind, fld)
+                        elif kind in RESIZING:
+                            viol = "typed write performs %s on field data: the data region changes size" % kind
+                        elif kind not in IN_PLACE:
+                            unk = "typed write performs %s on field data, an operation this rule has no contract for" % kind
                     else:
                         if fld == "data":
                             viol = "annotation write touches raw data (%s)" % kind
             if viol:
                 rep.violation(R6, b.name, "effect", "%s: %s" % (short, viol), "%s:%s" % (b.file, b.line))
+            elif unk:
+                rep.inconc(R6, "%s: %s" % (short, unk))
             else:
                 rep.ok(R6, {"fn": b.name, "category": cat})
         else:
@@ -283,29 +295,36 @@ def run(facts, rep, ctx):
                     sel = sel - names if neg else sel & names
             if p.end != "ret" or is_err_term(p.ret) is True:
                 continue
-            # byte-order conversions on the path, with in-place reversals of the byte array before them
+            # byte-order conversions on the path; every whole-value byte reversal on the path (slice reverse,
+            # swap(0, 1) of a 2-byte array, integer swap_bytes) flips the effective order once
             flips = 0
             conv = []
+            odd = False
             for e in p.events:
                 if e["k"] != "call" or not e["callee"]:
                     continue
-                if e["callee"].endswith("<impl [T]>::reverse"):
+                if e["callee"].endswith("<impl [T]>::reverse") or re.search(r"<impl \w+>::swap_bytes$", e["callee"]):
                     flips += 1
+                elif e["callee"].endswith("<impl [T]>::swap"):
+                    a = [x for x in e.get("args", [])[1:]]
+                    if width.get(ty) == 2 and sorted(a) == [("const", 0, "usize"), ("const", 1, "usize")]:
+                        flips += 1
+                    else:
+                        odd = True
+                elif re.search(r"<impl (\[T\]|\w+)>::(rotate_left|rotate_right|reverse_bits)$", e["callee"]):
+                    odd = True
                 mm = re.search(r"<impl (\w+)>::(to|from)_(le|be)_bytes$", e["callee"])
                 if mm:
-                    order = mm.group(3)
-                    if flips % 2:
-                        order = "be" if order == "le" else "le"
-                    conv.append((mm.group(1), mm.group(2), order))
-                    flips = 0
+                    conv.append([mm.group(1), mm.group(2), mm.group(3)])
                 dm = re.match(r"mila::endian_aware_io::Endian::(encode|decode)_(\w+)$", e["callee"])
                 if dm and dm.group(1) == direction and dm.group(2) != ty:
                     for v in sel:
                         deleg.setdefault(v, set()).add(dm.group(2))
-            if flips % 2 and conv:
-                # a reversal after the conversion (encode side): flips the produced bytes
-                t_, d_, o_ = conv[-1]
-                conv[-1] = (t_, d_, "be" if o_ == "le" else "le")
+            if odd:
+                conv = [[c[0], c[1], "?"] for c in conv] or [["?", "?", "?"]]
+            elif flips % 2 and conv:
+                conv[-1][2] = "be" if conv[-1][2] == "le" else "le"
+            conv = [tuple(c) for c in conv]
             for v in sel:
                 table.setdefault(v, set()).update(conv)
         for variant, suffix in (("Little", "le"), ("Big", "be")):
@@ -317,7 +336,7 @@ def run(facts, rep, ctx):
             elif not got and len(via) == 1 and width.get(list(via)[0]) == width.get(ty):
                 # same-width sibling (checked on its own) plus a bit-preserving cast / from_bits
                 rep.ok(R4, {"fn": b.name, "variant": variant, "conv": "via %s_%s" % (direction, list(via)[0])})
-            elif got and all(g[1] == want_dir for g in got) and len(got) == 1:
+            elif got and all(g[1] == want_dir for g in got) and len(got) == 1 and list(got)[0][2] != "?":
                 g = list(got)[0]
                 rep.violation(R4, b.name, variant, "%s on Endian::%s converts with %s::%s_%s_bytes, expected %s::%s_%s_bytes" % (
                     b.name.rsplit("::", 1)[-1], variant, g[0], g[1], g[2], ty, want_dir, suffix), "%s:%s" % (b.file, b.line))
@@ -369,7 +388,11 @@ MUTATORS = ("insert", "remove", "push", "pop", "clear", "drain", "splice", "trun
 
 
 BORROW_ONLY = ("get_mut", "index_mut", "deref_mut", "entry", "iter_mut", "values_mut", "as_mut", "as_mut_slice",
-               "branch", "from_residual")
+               "branch", "from_residual", "split_at_mut", "split_first_mut", "split_last_mut", "chunks_mut",
+               "chunks_exact_mut", "first_mut", "last_mut", "get_unchecked_mut", "unwrap", "expect")
+RESIZING = ("insert", "remove", "push", "pop", "clear", "drain", "splice", "truncate", "resize", "extend", "retain",
+            "append", "dedup", "split_off", "swap_remove", "extend_from_slice", "set_len", "resize_with")
+IN_PLACE = ("store", "copy_from_slice", "clone_from_slice", "fill", "swap", "copy_within", "write", "replace")
 
 
 def mutation_events(path):
@@ -460,8 +483,10 @@ def stream_rules(facts, rep, E):
                 err = is_err_term(p.ret)
                 delegated = None
                 for e in p.events:
-                    if e["k"] == "call" and e["callee"] and e["callee"].startswith(ARCHIVE + "::"):
-                        delegated = e
+                    if e["k"] == "call" and e["callee"] and e["callee"].startswith(ARCHIVE + "::") and len(e["args"]) > 1:
+                        tb_ = facts.body(e["callee"])
+                        if tb_ is not None and classify(tb_) is not None:
+                            delegated = e
                     if e["k"] == "call" and e["callee"] and e["callee"].startswith(prefix) and e["callee"] != b.name:
                         kind = "via:" + e["callee"][len(prefix):]
                 writes = [e for e in p.events if e["k"] == "write" and root_field(e["place"])[:2] == (True, "position")]
@@ -484,7 +509,9 @@ def stream_rules(facts, rep, E):
                         tname = delegated["callee"].rsplit("::", 1)[-1]
                         if insert_into_labels(tb) or (cat[0] == "ann_read" and "labels" in accessed_fields(tb)):
                             want = 0
-                    if err is True and writes:
+                    # (the byte-run accessors are sequences of single-byte accesses: a run that fails part-way has
+                    # consumed the bytes before the failure, so movement on their error paths is specified)
+                    if err is True and writes and not (cat and cat[0] in ("bytes_read", "bytes_write")):
                         viol = "cursor moves on an error path"
                     moves = list(writes) + [e for e in p.events if e["k"] == "call" and e["callee"] and e["callee"].startswith(prefix) and
                                             e["callee"].rsplit("::", 1)[-1] in ("skip", "seek") and not (len(e["args"]) > 1 and e["args"][1][:2] == ("const", 0))]
@@ -497,15 +524,16 @@ def stream_rules(facts, rep, E):
                         inc = 0
                         for w in writes:
                             try:
-                                env7 = {("p", 1): Ref({"position": 1000, "archive": Adt("o", "A")})}
+                                env7 = {("p", 1): Ref({"position": 1000, "archive": Ref({"data": {"len": 5000}})})}
                                 for pi in range(2, b.argc + 1):
                                     env7[("p", pi)] = Ref({"len": 7}) if b.local_ty(pi).startswith("&[") else 7
                                 inc = E.ev(w["val"], env7, b) - 1000
                             except (Unknown, Panic, TypeError) as u:
                                 rep.inconc(R7, "%s: cursor update not evaluable: %s" % (b.name, u))
+                                inc = None
                         if len(writes) > 1:
                             viol = "cursor written %d times" % len(writes)
-                        if inc != want and not viol:
+                        if inc is not None and inc != want and not viol:
                             viol = "advances cursor by %d after %s (width %d)" % (inc, delegated["callee"].rsplit("::", 1)[-1], want)
                 elif kind and kind.startswith("via:"):
                     if writes:
